@@ -160,14 +160,16 @@ class ProjectedGradient(LinearOperator):
 
         if self.cdiff:
             grad = snp.gradient(x, axis=self.axes)
+            if len(self.axes) == 1:
+                # snp.gradient returns a plain array (not a list of arrays)
+                # when there is a single axis
+                grad = [grad]
         else:
             grad = diffstack(x, axis=self.axes)
         if self.coord is None:
             # If coord attribute is None, just return gradients on specified axes.
             if len(self.axes) == 1:
-                # diffstack returns a stack with a leading axis of length one,
-                # snp.gradient a plain array
-                return grad if self.cdiff else grad[0]
+                return grad[0]
             else:
                 return snp.blockarray(grad)
         else:
